@@ -77,6 +77,11 @@ fn scenario(ctx: &Ctx, idx: u64) -> Report {
         cfg.read_only = !serving;
         cfg.nodes = contacts;
         cfg.routers = routers.iter().map(|r| r.to_string()).collect();
+        // a router address given as plain node as well is still a router: never a contact
+        if use_routers && rng.gen_bool(0.5) {
+            cfg.nodes.push(routers[rng.gen_range(0..routers.len())]);
+            report.count("configs_with_a_router_also_given_as_node");
+        }
         let dht = spawn_node(&net, &cfg);
         if rng.gen_bool(0.3) {
             crate::world::api_hammer(&net, &dht, addr, seed, 0.05, 20_000);
@@ -337,6 +342,7 @@ pub fn check(tier: Tier) -> Check {
             ("unsolicited_queries", tier.pick(8_000, 400_000)),
             ("unsolicited_queries_claiming_a_hearsay_id", tier.pick(1_000, 50_000)),
             ("strangers_announcing_with_a_valid_token", tier.pick(300, 15_000)),
+            ("configs_with_a_router_also_given_as_node", tier.pick(10, 200)),
             ("responses_with_wrong_tid_length", tier.pick(3_000, 150_000)),
             ("responses_with_never_used_prefix", tier.pick(3_000, 150_000)),
             ("responses_with_live_id_of_wrong_length", tier.pick(2_000, 100_000)),
